@@ -74,12 +74,20 @@ def run_property(prop: str, tier: str, seed: int, overlay=None, quiet=False) -> 
         print(f"note: a later rule could not be evaluated ({exc}); reporting the violations found before it")
     except BrokenPipeError:
         raise
-    except Exception as exc:  # internal error: never a violation
-        tb = traceback.format_exc()
-        print(f"ANALYSIS-ERROR property={prop} internal error: {exc!r}")
-        print(tb)
-        write_evidence(res, tier, seed, time.time() - t0, [], [], error=repr(exc))
-        return 2
+    except Exception as exc:  # internal error: never a violation by itself
+        partial = None
+        for r in Result.registry:
+            if r.prop == prop and r.violations and (partial is None or len(r.obligations) > len(partial.obligations)):
+                partial = r
+        if partial is None:
+            tb = traceback.format_exc()
+            print(f"ANALYSIS-ERROR property={prop} internal error: {exc!r}")
+            print(tb)
+            write_evidence(res, tier, seed, time.time() - t0, [], [], error=repr(exc))
+            return 2
+        analysis_error = repr(exc)
+        res = partial
+        print(f"note: a later rule failed internally ({exc!r}); reporting the violations found before it")
 
     known = Known()
     new, hits = [], []
